@@ -319,7 +319,7 @@ var msBCP = map[uint16]string{
 	0x280a: "es-PE",       // Spanish, Peru
 	0x500a: "es-PR",       // Spanish, Puerto Rico
 	0x0c0a: "es-ES",       // Spanish (Modern Sort), Spain
-	0x040a: "es-ES",       // Spanish (Traditional Sort), Spain
+	0x040a: "es-ES-u-co-trad", // Spanish (Traditional Sort), Spain
 	0x540a: "es-US",       // Spanish, United States
 	0x380a: "es-UY",       // Spanish, Uruguay
 	0x200a: "es-VE",       // Spanish, Venezuela
